@@ -100,6 +100,16 @@ theorem chosenIds_eq (tags cases : List String) (l p cap : Nat) :
   unfold Spec.C14.chosenIds mkFile
   exact (chosenIds_zip cases (List.range tags.length) tags).symm
 
+/-- the model never predicts a provider that kills its process -/
+theorem modelSideOf_not_fatal (k : Fmt) (preload : Bool) (tags cases : List String) (b : Bounds) (cap : Nat) :
+    (Drv.C14.modelSideOf k preload tags cases b cap).run ≠ .fatal := by
+  unfold Drv.C14.modelSideOf
+  split
+  · cases h : run k preload tags cases b (if cap = 0 then none else some cap) with
+    | none => simp [Drv.C14.sideOf]
+    | some o => cases hr : o.run <;> simp [Drv.C14.sideOf, Drv.C14.classOf, hr]
+  · simp [Drv.C14.constructFailed]
+
 /-! ## /repo HEAD before b8504d9: the streaming path on a file from which nothing is chosen, passes = 0 -/
 
 /-- `Head.fullScan` (runFullScan without the no-ammo ending) over a non-empty file from which nothing is chosen
